@@ -131,6 +131,8 @@ pub fn run(tier: Tier) -> Report {
             for k in 1..=20 {
                 special.push([k as f32 / 10.0; 3]);
             }
+            // signed zeros and subnormals are values of [-0.5,2] too (bit-exactness for equal primaries)
+            special.extend([[-0.0, 0.0, -0.0], [0.5, -0.0, 1.0], [f32::from_bits(1), -f32::from_bits(1), f32::MIN_POSITIVE]]);
             let mut acc = Acc::default();
             check(&mut acc, p, to709, base, &special);
             // white stays white within 1e-5 (flat)
